@@ -335,6 +335,9 @@ func runC10(cfg Config) {
 		}
 	}
 
+	// concurrent readers and pre-load goroutines under a cooperative scheduler: trace validation (c10conc.go)
+	runC10Conc(cfg, rep, m, rng)
+
 	// concurrent readers on one sparse file with a store that fails some calls
 	nc := cfg.N(150, 4000)
 	for it := 0; it < nc; it++ {
@@ -395,8 +398,6 @@ func runC10(cfg Config) {
 			monitor("concurrent sparse read returned bytes that differ from the blob ("+bad+")", caseLine, "")
 		}
 	}
-	// concurrent readers and pre-load goroutines under a cooperative scheduler: trace validation (c10conc.go)
-	runC10Conc(cfg, rep, m, rng)
 	rep.Write(cfg.Out)
 }
 
